@@ -217,6 +217,47 @@ func runC10(c *Ctx) {
 	checkCausePreserved(c)
 	checkGoroutineJoin(c)
 	checkFilterErrChecked(c)
+	checkZeroReadFatal(c)
+}
+
+// checkZeroReadFatal is R10.6: a zero-length read is a fault of the capture handle; it must end the run with an
+// error (not be skipped like an unrelated packet), otherwise a broken handle yields an empty path as a success.
+func checkZeroReadFatal(c *Ctx) {
+	R := c.R
+	f := c.P.Func("packets.ReadAndParse")
+	if f == nil {
+		R.Fail("R10.6", "packets.ReadAndParse#anchor", 0, "", "anchor packets.ReadAndParse no longer resolves")
+		return
+	}
+	ea := NewErrAnalysis(c)
+	fn := core.FuncName(f)
+	rps, _ := core.ReturnPaths(c.P, f, 2000)
+	n := 0
+	for _, rp := range rps {
+		zero, readOK := false, false
+		for _, a := range rp.Atoms {
+			nn := a.Norm()
+			s := nn.Cond.String()
+			if nn.Sign && strings.HasSuffix(s, "#0 == 0)") && strings.Contains(s, "Source.Read") {
+				zero = true
+			}
+			if nn.Sign && strings.HasSuffix(s, "#1 == nil)") && strings.Contains(s, "Source.Read") {
+				readOK = true
+			}
+		}
+		if !zero || !readOK {
+			continue
+		}
+		n++
+		retryable, isNil := false, rp.Results[0].IsConst("nil")
+		for _, e := range ea.classOf(rp.Ret.Results[0], f, map[ssa.Value]bool{}) {
+			if e.Retryable() {
+				retryable = true
+			}
+		}
+		R.Check(!retryable && !isNil, "R10.6", fn+"#zero-length-read", rp.Ret.Pos(), fn, "a zero-length read fails the run", "a zero-length read of the capture handle is reported as a retryable (skipped) condition or as success: a broken handle would yield a partial or empty path as a success")
+	}
+	R.Floor("R10.6:zero-read-paths", n, 1)
 }
 
 // typestate enumerates the return paths of f and checks close-exactly-once / no use after close.
